@@ -128,6 +128,14 @@ func (fr *frame) doCall(b *ssa.BasicBlock, st *state, ins ssa.Instruction, call 
 	}
 	label = callee.String()
 	ct = vc.w.db.Contracts[label]
+	// a method that can be reached by dynamic dispatch is verified for non-nil receivers (the dynamic value of a
+	// non-nil interface); a static call must therefore pass one
+	recvChecked := false
+	if callee.Signature.Recv() != nil && len(args) > 0 && ptrElem(callee.Signature.Recv().Type()) != nil && vc.w.implementsModuleIface(callee) {
+		fr.oblPanic(b, "nil-recv", ins, fmt.Sprintf("(= %s nil)", args[0]))
+		fr.assumeOK(b, fmt.Sprintf("(distinct %s nil)", args[0]))
+		recvChecked = true
+	}
 	if ct != nil && !ct.Inline {
 		fr.applyContract(b, st, ins, v, ct, callee, args, argTypes, sig, label, call)
 		return
@@ -136,7 +144,9 @@ func (fr *frame) doCall(b *ssa.BasicBlock, st *state, ins ssa.Instruction, call 
 	if ct == nil && callee.Signature.Recv() != nil {
 		if icts := vc.w.ifaceContractsFor(callee); len(icts) > 0 {
 			recv := args[0]
-			fr.oblPanic(b, "nil-recv", ins, fmt.Sprintf("(= %s nil)", recv))
+			if !recvChecked {
+				fr.oblPanic(b, "nil-recv", ins, fmt.Sprintf("(= %s nil)", recv))
+			}
 			fr.applyContract(b, st, ins, v, icts[0], callee, args, argTypes, sig, label, call)
 			return
 		}
@@ -382,6 +392,8 @@ func (fr *frame) variantObl(b *ssa.BasicBlock, st *state, ins ssa.Instruction, c
 	}
 	trOwn := vc.contractTrans(ownCt, vc.fn, nil, vc.entry, vc.entry)
 	var callerM, calleeM []string
+	c.cardPairs = true
+	defer func() { c.cardPairs = false }()
 	for _, e := range own.Exprs {
 		s, _ := trOwn.expr(e)
 		callerM = append(callerM, s)
@@ -518,7 +530,9 @@ func (fr *frame) opaque(b *ssa.BasicBlock, st *state, ins ssa.Instruction, v ssa
 	vc := fr.vc
 	pre := st.clone()
 	vc.havoc(st, pre, ms, what, argRoot(args), nil)
-	if inModule {
+	if inModule && fr.depth >= maxInlineDepth && !strings.HasPrefix(what, "invoke ") {
+		vc.assumed["module "+what+" beyond the inlining depth: does not panic, result unconstrained"] = true
+	} else if inModule {
 		vc.assumed["uncontracted module "+what+": does not panic, result unconstrained"] = true
 		vc.opaqueModule = append(vc.opaqueModule, what)
 	} else {
@@ -740,7 +754,7 @@ func (fr *frame) willInline(callee *ssa.Function) bool {
 		return false
 	}
 	inMod := callee.Pkg != nil && vc.w.inModule(callee.Pkg.Pkg.Path()) || (callee.Parent() != nil)
-	return inMod && callee.Blocks != nil && fr.depth < maxInlineDepth && !vc.recursive(callee) && (len(fr.calleeLoops(callee)) == 0 || (ct != nil && ct.Inline)) && !vc.onStack(callee)
+	return inMod && callee.Blocks != nil && fr.depth < maxInlineDepth && (!vc.recursive(callee) || (ct != nil && ct.Inline)) && (len(fr.calleeLoops(callee)) == 0 || (ct != nil && ct.Inline)) && !vc.onStack(callee)
 }
 
 // callsiteObls: assertions the caller's contract attaches to its N-th call of a given callee.
@@ -779,4 +793,49 @@ func (fr *frame) callsiteObls(b *ssa.BasicBlock, st *state, ins ssa.Instruction,
 		// asserted, then available as a fact on the paths through this call
 		vc.c.assume(implies(fr.cond[b], f))
 	}
+}
+
+// implementsModuleIface: fn is a method of a type that implements a module interface declaring a method of that name
+// (so it may be reached by dynamic dispatch).
+func (w *world) implementsModuleIface(fn *ssa.Function) bool {
+	recv := fn.Signature.Recv()
+	if recv == nil {
+		return false
+	}
+	rt := recv.Type()
+	if p, ok := rt.(*types.Pointer); ok {
+		rt = p.Elem()
+	}
+	for key, ims := range w.impls {
+		for _, im := range ims {
+			if !types.Identical(rt, im) {
+				continue
+			}
+			if it := w.ifaceByKey(key); it != nil {
+				for i := 0; i < it.NumMethods(); i++ {
+					if it.Method(i).Name() == fn.Name() {
+						return true
+					}
+				}
+			}
+		}
+	}
+	return false
+}
+
+func (w *world) ifaceByKey(key string) *types.Interface {
+	i := strings.LastIndex(key, ".")
+	if i < 0 {
+		return nil
+	}
+	p := w.pkgs[key[:i]]
+	if p == nil {
+		return nil
+	}
+	obj := p.Pkg.Scope().Lookup(key[i+1:])
+	if obj == nil {
+		return nil
+	}
+	it, _ := obj.Type().Underlying().(*types.Interface)
+	return it
 }
